@@ -401,7 +401,16 @@ def run_case(case):
                 driver.build_nodata(st.spec)
                 if origin in history.SERIAL:
                     for a in cfg.get('pre', []):
-                        driver.model.evaluate(a)
+                        try:
+                            driver.model.evaluate(a)
+                        except Exception:   # noqa
+                            # (a cell the reference cannot evaluate either - a library function
+                            # that raises on these operands - is simply not part of what is saved)
+                            involved = st.range_members(a) if ':' in a else [a]
+                            if all(exp_states[0].get(c, ('err',))[0] == 'ok' for c in involved
+                                   if c in st.all):
+                                raise
+                            count('probe:pre-evaluation-raised-as-in-the-reference')
                     op = {'op': 'restart', 'fmt': origin}
                     out = driver.restart_save(op)
                     if 'exc' in out:
